@@ -45,6 +45,11 @@ class Facts:
         # variable text -> set of simple class names the value is an
         # instance of (its class and every ancestor)
         self.inst: Dict[str, Set[str]] = {}
+        self.undecided: List[str] = []
+        # local name -> value expressions of its definitions that the facts
+        # leave reachable (None: some definition is not a plain assignment)
+        self.defs: Dict[str, Optional[List[ast.expr]]] = {}
+        self._depth = 0
 
     def atom(self, e: ast.expr) -> Optional[bool]:
         cands = [_strip(norm(e))]
@@ -77,6 +82,69 @@ class Facts:
                     self.used.add(lt)
                     return (val in [x.value for x in r.elts]) == \
                         isinstance(op, ast.In)
+        # a local all of whose reachable definitions decide the test the
+        # same way (constants compared directly, other values through the
+        # facts)
+        v = self._via_defs(e)
+        if v is not None:
+            return v
+        # mirrored forms: a < b is b > a, a == b is b == a
+        if isinstance(e, ast.Compare) and len(e.ops) == 1:
+            mir = {ast.Lt: ast.Gt, ast.Gt: ast.Lt, ast.LtE: ast.GtE,
+                   ast.GtE: ast.LtE, ast.Eq: ast.Eq, ast.NotEq: ast.NotEq,
+                   ast.Is: ast.Is, ast.IsNot: ast.IsNot}
+            neg = {ast.Lt: ast.GtE, ast.GtE: ast.Lt, ast.Gt: ast.LtE,
+                   ast.LtE: ast.Gt}
+            op = type(e.ops[0])
+            forms = []          # (expression, polarity)
+            if op in mir:
+                forms.append((ast.Compare(left=e.comparators[0],
+                                          ops=[mir[op]()],
+                                          comparators=[e.left]), True))
+            if op in neg:
+                forms.append((ast.Compare(left=e.left, ops=[neg[op]()],
+                                          comparators=e.comparators), False))
+                forms.append((ast.Compare(left=e.comparators[0],
+                                          ops=[mir[neg[op]]()],
+                                          comparators=[e.left]), False))
+            # a < b (true) settles a <= b, a > b, a >= b, a == b, a != b
+            imp = {(ast.Lt, True): {ast.LtE: True, ast.Gt: False,
+                                    ast.GtE: False, ast.Eq: False,
+                                    ast.NotEq: True},
+                   (ast.Gt, True): {ast.GtE: True, ast.Lt: False,
+                                    ast.LtE: False, ast.Eq: False,
+                                    ast.NotEq: True},
+                   (ast.LtE, False): {ast.Gt: True, ast.GtE: True,
+                                      ast.Eq: False, ast.NotEq: True},
+                   (ast.GtE, False): {ast.Lt: True, ast.LtE: True,
+                                      ast.Eq: False, ast.NotEq: True},
+                   (ast.Eq, True): {ast.LtE: True, ast.GtE: True,
+                                    ast.Lt: False, ast.Gt: False}}
+            for (fop, fval), table in imp.items():
+                if op not in table:
+                    continue
+                for left, right, o2 in (
+                        (e.left, e.comparators[0], fop),
+                        (e.comparators[0], e.left, mir.get(fop, fop))):
+                    e2 = ast.Compare(left=left, ops=[o2()],
+                                     comparators=[right])
+                    for t in [_strip(norm(e2))] + (
+                            [_strip(inline_locals(self.fn, e2))]
+                            if self.fn is not None else []):
+                        if self.f.get(t) is fval:
+                            # the mirrored spelling keeps the operator of
+                            # the query as written
+                            self.used.add(t)
+                            qop = op if left is e.left else mir.get(op, op)
+                            if qop in table:
+                                return table[qop]
+            for e2, pol in forms:
+                for t in [_strip(norm(e2))] + (
+                        [_strip(inline_locals(self.fn, e2))]
+                        if self.fn is not None else []):
+                    if t in self.f:
+                        self.used.add(t)
+                        return self.f[t] == pol
         # X is None / X is not None / X == c / X != c negations
         if isinstance(e, ast.Compare) and len(e.ops) == 1:
             op = e.ops[0]
@@ -92,6 +160,55 @@ class Facts:
                         if t in self.f:
                             self.used.add(t)
                             return not self.f[t]
+        return None
+
+    def _via_defs(self, e: ast.expr) -> Optional[bool]:
+        if not self.defs or self._depth > 2:
+            return None
+        name = None
+        if isinstance(e, ast.Name):
+            name = e.id
+        elif isinstance(e, ast.Compare) and len(e.ops) == 1 and \
+                isinstance(e.left, ast.Name):
+            name = e.left.id
+        if name is None or not self.defs.get(name):
+            return None
+        import copy
+        res = set()
+        self._depth += 1
+        try:
+            for val in self.defs[name]:
+                if isinstance(e, ast.Name):
+                    r = bool(val.value) if isinstance(val, ast.Constant) \
+                        else self.eval(val)
+                else:
+                    op, cmpv = e.ops[0], e.comparators[0]
+                    r = None
+                    if isinstance(val, ast.Constant) and isinstance(
+                            cmpv, ast.Constant):
+                        a, b = val.value, cmpv.value
+                        if isinstance(op, (ast.Eq, ast.Is)):
+                            r = a == b and type(a) is type(b)
+                        elif isinstance(op, (ast.NotEq, ast.IsNot)):
+                            r = not (a == b and type(a) is type(b))
+                    elif isinstance(val, ast.Constant) and isinstance(
+                            cmpv, (ast.Tuple, ast.List, ast.Set)) and all(
+                            isinstance(x, ast.Constant) for x in cmpv.elts) \
+                            and isinstance(op, (ast.In, ast.NotIn)):
+                        r = (val.value in [x.value for x in cmpv.elts]) == \
+                            isinstance(op, ast.In)
+                    elif not isinstance(val, ast.Constant):
+                        e2 = ast.Compare(left=copy.deepcopy(val), ops=[op],
+                                         comparators=e.comparators)
+                        r = self.eval(e2)
+                if r is None:
+                    return None
+                res.add(r)
+        finally:
+            self._depth -= 1
+        if len(res) == 1:
+            self.used.add('defs:' + name)
+            return res.pop()
         return None
 
     def eval(self, e: ast.expr) -> Optional[bool]:
@@ -144,17 +261,247 @@ def _test_of(n) -> Optional[ast.expr]:
     return None
 
 
-def closed_edges(g: CFG, facts: Facts) -> Set[Tuple[int, str]]:
-    out: Set[Tuple[int, str]] = set()
-    for n in g.nodes:
-        t = _test_of(n)
-        if t is None:
+# the Facts object of the most recent path query: an obligation that fails
+# right after a query whose open region still holds *undecided tests about
+# the very quantities the facts speak of* is not a violation -- the function
+# now decides the matter in terms the fact does not name, so the fact cannot
+# be decided (report.Ctx.ob turns it into an undecided obligation).
+PENDING: Optional['Facts'] = None
+
+
+def _scope_names(fn: Optional[ast.AST]) -> Set[str]:
+    """parameters and locals of fn (and of the functions nested in it)"""
+    out: Set[str] = set()
+    if fn is None:
+        return out
+    for x in ast.walk(fn):
+        if isinstance(x, ast.arg):
+            out.add(x.arg)
+        elif isinstance(x, ast.Name) and isinstance(x.ctx, ast.Store):
+            out.add(x.id)
+    return out
+
+
+_BUILTIN_FUNCS = {'isinstance', 'len', 'str', 'bool', 'int', 'type', 'any',
+                  'all', 'set', 'list', 'tuple', 'sorted', 'min', 'max',
+                  'frozenset', 'dict', 'getattr', 'hasattr', 'iter', 'next',
+                  'sum', 'abs', 'repr', 'id', 'callable'}
+
+
+def _path_of(e: ast.AST, scope: Set[str]) -> Optional[Tuple[str, ...]]:
+    """access path of an expression rooted in a local / parameter:
+    name, .attr and [constant] steps"""
+    parts: List[str] = []
+    while True:
+        if isinstance(e, ast.Attribute):
+            parts.append(e.attr)
+            e = e.value
+        elif isinstance(e, ast.Subscript) and isinstance(
+                e.slice, ast.Constant):
+            parts.append(f'[{e.slice.value!r}]')
+            e = e.value
+        elif isinstance(e, ast.Name):
+            if e.id not in scope:
+                return None
+            parts.append(e.id)
+            return tuple(reversed(parts))
+        else:
+            return None
+
+
+def _paths(e: ast.AST, scope: Set[str]) -> Set[Tuple[str, ...]]:
+    """the quantities an expression speaks about: maximal access paths;
+    a call on a quantity (`x.f(a)`) is the quantity `x.f` and its arguments
+    are not looked at; a call of anything else speaks about its arguments"""
+    out: Set[Tuple[str, ...]] = set()
+
+    def rec(n):
+        if isinstance(n, ast.Call):
+            p = _path_of(n.func, scope)
+            if p is not None and len(p) > 1:
+                out.add(p)
+                return
+            if not isinstance(n.func, (ast.Name, ast.Attribute)):
+                rec(n.func)
+            elif isinstance(n.func, ast.Attribute) and p is None:
+                # method of a computed value: look inside the receiver
+                inner = n.func.value
+                while isinstance(inner, ast.Attribute):
+                    inner = inner.value
+                if not isinstance(inner, ast.Name):
+                    rec(inner)
+            args = list(n.args) + [k.value for k in n.keywords]
+            if isinstance(n.func, ast.Name) and n.func.id == 'isinstance':
+                args = args[:1]
+            for a in args:
+                rec(a)
+            return
+        p = _path_of(n, scope)
+        if p is not None:
+            out.add(p)
+            return
+        for ch in ast.iter_child_nodes(n):
+            rec(ch)
+    rec(e)
+    return out
+
+
+def _fact_subjects(facts: Facts) -> Set[Tuple[str, ...]]:
+    scope = _scope_names(facts.fn)
+    out: Set[Tuple[str, ...]] = set()
+    for k in list(facts.f) + list(facts.c):
+        try:
+            e = ast.parse(k, mode='eval').body
+        except SyntaxError:
             continue
-        v = facts.eval(t)
-        if v is True:
-            out.add((n.id, 'F'))
-        elif v is False:
-            out.add((n.id, 'T'))
+        out |= _paths(e, scope)
+    return out
+
+
+def _related(t: ast.expr, facts: Facts, subjects, depth: int = 3,
+             exact: bool = False) -> bool:
+    """the atom speaks about a quantity the facts speak about: the same
+    access path or a coarser one (a prefix), directly or through a local
+    whose definition does"""
+    scope = _scope_names(facts.fn)
+    ps = _paths(t, scope)
+    for a in ps:
+        for s_ in subjects:
+            if a == s_ or (not exact and len(a) < len(s_)
+                           and s_[:len(a)] == a):
+                return True
+    if depth and facts.fn is not None:
+        roots = {a[0] for a in ps}
+        params = {x.arg for x in ast.walk(facts.fn)
+                  if isinstance(x, ast.arg)}
+        roots -= params
+        if roots:
+            for x in ast.walk(facts.fn):
+                if isinstance(x, ast.Assign) and any(
+                        isinstance(tt, ast.Name) and tt.id in roots
+                        for tg in x.targets for tt in ast.walk(tg)):
+                    # through a local only the very same quantity counts
+                    if _related(x.value, facts, subjects, depth - 1, True):
+                        return True
+    return False
+
+
+def _undecided_atoms(facts: Facts, e: ast.expr) -> List[ast.expr]:
+    if isinstance(e, ast.BoolOp):
+        out = []
+        for v in e.values:
+            if facts.eval(v) is None:
+                out += _undecided_atoms(facts, v)
+        return out
+    if isinstance(e, ast.UnaryOp) and isinstance(e.op, ast.Not):
+        return _undecided_atoms(facts, e.operand)
+    if isinstance(e, ast.NamedExpr):
+        return _undecided_atoms(facts, e.value)
+    return [e] if facts.eval(e) is None else []
+
+
+def _open_defs(g: CFG, facts: Facts, closed) -> Dict[str, Optional[list]]:
+    on = g.reachable([g.entry], avoid_edges=closed) | {g.entry}
+    params: Set[str] = set()
+    if facts.fn is not None and hasattr(facts.fn, 'args'):
+        a = facts.fn.args
+        params = {x.arg for x in a.posonlyargs + a.args + a.kwonlyargs}
+        if a.vararg:
+            params.add(a.vararg.arg)
+        if a.kwarg:
+            params.add(a.kwarg.arg)
+    defs: Dict[str, Optional[list]] = {p: None for p in params}
+    for n in g.nodes:
+        a = n.ast
+        if a is None:
+            continue
+        if n.kind == 'stmt' and isinstance(a, ast.Assign) and \
+                len(a.targets) == 1 and isinstance(a.targets[0], ast.Name):
+            nm = a.targets[0].id
+            if n.id in on and defs.get(nm, []) is not None:
+                defs.setdefault(nm, []).append(a.value)
+            continue
+        if n.kind == 'stmt' and isinstance(a, ast.AnnAssign) and \
+                isinstance(a.target, ast.Name) and a.value is not None:
+            nm = a.target.id
+            if n.id in on and defs.get(nm, []) is not None:
+                defs.setdefault(nm, []).append(a.value)
+            continue
+        # any other binding form makes the name opaque
+        root = a.test if (n.kind == 'test' and hasattr(a, 'test')) else a
+        if isinstance(root, (ast.For, ast.AsyncFor)):
+            scan = [root.target]
+        elif isinstance(root, (ast.With, ast.AsyncWith)):
+            scan = [it.optional_vars for it in root.items
+                    if it.optional_vars is not None]
+        elif isinstance(root, (ast.FunctionDef, ast.AsyncFunctionDef,
+                               ast.ClassDef)):
+            defs[root.name] = None
+            scan = []
+        else:
+            scan = [root]
+        for sc in scan:
+            for x in ast.walk(sc):
+                if isinstance(x, ast.Name) and isinstance(
+                        x.ctx, (ast.Store, ast.Del)):
+                    defs[x.id] = None
+                elif isinstance(x, (ast.Lambda, ast.FunctionDef,
+                                    ast.AsyncFunctionDef)):
+                    break
+    # names rebound inside nested functions (nonlocal) stay opaque
+    if facts.fn is not None:
+        for x in ast.walk(facts.fn):
+            if isinstance(x, ast.Nonlocal):
+                for nm in x.names:
+                    defs[nm] = None
+    return defs
+
+
+def closed_edges(g: CFG, facts: Facts) -> Set[Tuple[int, str]]:
+    global PENDING
+    out: Set[Tuple[int, str]] = set()
+    undec = []
+    facts.defs = {}
+    for _round in range(4):
+        prev = set(out)
+        out = set()
+        undec = []
+        for n in g.nodes:
+            t = _test_of(n)
+            if t is None:
+                continue
+            v = facts.eval(t)
+            if v is True:
+                out.add((n.id, 'F'))
+            elif v is False:
+                out.add((n.id, 'T'))
+            else:
+                undec.append((n.id, t))
+        if _round and out == prev:
+            break
+        try:
+            facts.defs = _open_defs(g, facts, out)
+        except Exception:
+            facts.defs = {}
+            break
+    facts.undecided = []
+    new = None
+    if undec and (facts.f or facts.c):
+        from . import alpha
+        new = alpha.new_tests(facts.fn)
+    if new:
+        from .alpha import canon_test
+        undec = [(nid, t) for nid, t in undec if canon_test(t) in new]
+        subjects = _fact_subjects(facts)
+        if undec and subjects:
+            on = g.reachable([g.entry], avoid_edges=out) | {g.entry}
+            for nid, t in undec:
+                if nid not in on:
+                    continue
+                for at in _undecided_atoms(facts, t):
+                    if _related(at, facts, subjects):
+                        facts.undecided.append(norm(at))
+    PENDING = facts
     return out
 
 
